@@ -114,7 +114,7 @@ class C10(BaseCheck):
                  'rounded deadline computed in exact rationals; actions within 2us of a grid '
                  'point are exempt from the ordering clause only')
   QUICK_CASES = 2400
-  THOROUGH_CASES = 30000
+  THOROUGH_CASES = 200000
   QUICK_WALL = 30
   THOROUGH_WALL = 400
   MIN_DISTINCT = 10
